@@ -14,6 +14,7 @@ RULE = ('single rules from the AST generator (literal and wildcard segments, int
 REQUIRED = ['roundtrips', 'with_int', 'with_float', 'with_re', 'with_path', 'with_anonymous_positional', 'adjacent_wildcards',
             'path_followed_by_literal', 'float_needing_positional_notation', 'literals_checked', 'static_rules']
 ASSUMPTIONS = ['parameters are exactly those produced by matching (the statement); float digit strings are at most 30 characters',
+               'excluded: a number not in canonical spelling that follows a path/re wildcard in the rule (re-spelling it can move the earlier open-ended match; no builder can prevent that), and a negative zero directly after another wildcard',
                'anonymous wildcard values are taken from the reference matcher trace (C01 establishes its agreement with the router)']
 
 
@@ -100,6 +101,22 @@ def one_rule(ctx, rng, ast, text, paths, forced=False):
                 neg_zero = True
         if neg_zero:
             ctx.count('excluded_negative_zero_after_adjacent_wildcard')
+            continue
+        # X: a numeric wildcard whose matched text is not its canonical spelling ('012', '-0', '٣', '1.50') that comes
+        # *after* a path or re wildcard: those match greedily / with look-ahead over text the builder has to normalise
+        # ('a/b/142/012' -> 'a/b/142/12' creates a new '/1' for `<p:path>/1`), so no builder can keep the earlier split
+        shifted = False
+        seen_open = False
+        for (k, i, j) in tr:
+            f = cast[k][2]
+            if f in ('int', 'float'):
+                canon = str(int(s[i:j])) if f == 'int' else repr(float(s[i:j]))
+                if seen_open and s[i:j] != canon:
+                    shifted = True
+            if f in ('path', 're'):
+                seen_open = True
+        if shifted:
+            ctx.count('excluded_renormalised_number_after_open_ended_wildcard')
             continue
         args = [v for n, v in vals if n is None]
         named = {n: v for n, v in vals if n is not None}
